@@ -11,7 +11,11 @@ becomes a heap update, `for` becomes `for`, `return` becomes `return`, `raise`
 becomes `throw`.  Everything that is not recognised raises `Unsupported` — the
 translator never guesses.  What is dropped (and only that): docstrings, calls
 on `logger`, `if logger.isEnabledFor(..):` blocks that contain only logging,
-the message argument of `assert` / exceptions.
+the message argument of `assert` / exceptions, the assignment `self.model = model` / `self.lang_graph =
+lang_graph` of `__init__` (the environment *is* those two parameters), and assignments to the write-only
+attribute `asset.attack_step_nodes` of model assets (table `WRITE_ONLY`; no translated function reads it).
+
+A constructor call `AttackGraphNode(..)` / `Attacker(..)` allocates a fresh reference (`H.allocN` / `H.allocA`).
 
 The fixed part (`MalVerif/Py/Prelude.lean`) says how Python values appear in
 Lean.  See DESIGN.md §I.9 for the conventions and the trusted base.
@@ -60,9 +64,20 @@ MODULES['Eval'] = ('maltoolbox/attackgraph/attackgraph.py', [(None, '_process_st
 # dictionaries and is outside the supported subset)
 MODULES['Link'] = ('maltoolbox/attackgraph/attackgraph.py', [('AttackGraph', '_generate_graph', 'link')])
 SLICES = {'link': ('the loop `for ag_node in self.nodes:`', lambda st: isinstance(st, ast.For) and ast.unparse(st.iter) == 'self.nodes')}
-MODULE_ORDER = ['Node', 'Attacker', 'NodeDelegates', 'Query', 'Graph', 'Apriori', 'Eval', 'Link']
+# attacker attachment, the first loop of `_generate_graph` (node creation) as a slice, and the whole of
+# `_generate_graph` / `regenerate_graph` / `__init__` (what they read from the model and the language graph are
+# parameters: fields of `EvalEnv`)
+MODULES['Attach'] = ('maltoolbox/attackgraph/attackgraph.py', [('AttackGraph', 'attach_attackers')])
+MODULES['Nodes'] = ('maltoolbox/attackgraph/attackgraph.py', [('AttackGraph', '_generate_graph', 'nodes')])
+MODULES['Regen'] = ('maltoolbox/attackgraph/attackgraph.py', [
+    ('AttackGraph', '_generate_graph'), ('AttackGraph', 'regenerate_graph'), ('AttackGraph', '__init__')])
+SLICES['nodes'] = ('the loop `for asset in self.model.assets:`',
+                   lambda st: isinstance(st, ast.For) and ast.unparse(st.iter) == 'self.model.assets')
+MODULE_ORDER = ['Node', 'Attacker', 'NodeDelegates', 'Query', 'Graph', 'Apriori', 'Eval', 'Link', 'Attach', 'Nodes',
+                'Regen']
 IMPORTS = {'Node': [], 'Attacker': ['Node'], 'NodeDelegates': ['Attacker'], 'Query': ['Node'],
-           'Graph': ['Attacker'], 'Apriori': ['Graph'], 'Eval': [], 'Link': ['Graph', 'Eval']}
+           'Graph': ['Attacker'], 'Apriori': ['Graph'], 'Eval': [], 'Link': ['Graph', 'Eval'],
+           'Attach': ['Graph'], 'Nodes': ['Graph', 'Eval'], 'Regen': ['Graph', 'Eval']}
 
 # what harness/tie.py needs to know about this translation domain (see its docstring)
 TIE = {
@@ -71,22 +86,32 @@ TIE = {
     # modules that depend on the generated code, in dependency order
     'chain': ['MalVerif.Py.TieNode', 'MalVerif.Py.TieGraph', 'MalVerif.Py.TieApriori', 'MalVerif.Py.TieEval',
               'MalVerif.Py.TieLink', 'MalVerif.PropsGen.C01', 'MalVerif.PropsGen.C08', 'MalVerif.PropsGen.C09',
-              'MalVerif.PropsGen.C11', 'MalVerif.PropsGen.C12', 'MalVerif.PropsGen.C13'],
+              'MalVerif.PropsGen.C11', 'MalVerif.PropsGen.C12', 'MalVerif.PropsGen.C13',
+              'MalVerif.Py.TieAttach', 'MalVerif.PropsGen.C11_Attach', 'MalVerif.Py.TieNodes', 'MalVerif.Py.TieRegen',
+              'MalVerif.PropsGen.C02', 'MalVerif.PropsGen.C01_Gen', 'MalVerif.Py.TieLinkAt', 'MalVerif.Py.TieRegenFull',
+              'MalVerif.PropsGen.C09_Regen'],
     # which modules carry the claim of a property (its PropsGen file and what that imports)
     'needs': {
-        'C01': ['MalVerif.Py.TieEval', 'MalVerif.Py.TieLink', 'MalVerif.PropsGen.C01'],
+        'C01': ['MalVerif.Py.TieEval', 'MalVerif.Py.TieLink', 'MalVerif.PropsGen.C01', 'MalVerif.Py.TieNodes',
+                'MalVerif.Py.TieRegen', 'MalVerif.PropsGen.C01_Gen'],
+        'C02': ['MalVerif.Py.TieEval', 'MalVerif.Py.TieGraph', 'MalVerif.Py.TieLink', 'MalVerif.Py.TieNodes',
+                'MalVerif.PropsGen.C02'],
         'C08': ['MalVerif.Py.TieApriori', 'MalVerif.PropsGen.C08'],
-        'C09': ['MalVerif.Py.TieNode', 'MalVerif.Py.TieGraph', 'MalVerif.PropsGen.C09'],
-        'C11': ['MalVerif.Py.TieNode', 'MalVerif.PropsGen.C11'],
+        'C09': ['MalVerif.Py.TieNode', 'MalVerif.Py.TieGraph', 'MalVerif.PropsGen.C09', 'MalVerif.Py.TieEval',
+                'MalVerif.Py.TieLink', 'MalVerif.Py.TieNodes', 'MalVerif.Py.TieRegen', 'MalVerif.Py.TieLinkAt',
+                'MalVerif.Py.TieRegenFull', 'MalVerif.PropsGen.C01_Gen', 'MalVerif.PropsGen.C09_Regen'],
+        'C11': ['MalVerif.Py.TieNode', 'MalVerif.PropsGen.C11', 'MalVerif.Py.TieGraph', 'MalVerif.Py.TieAttach',
+                'MalVerif.PropsGen.C11_Attach'],
         'C12': ['MalVerif.Py.TieNode', 'MalVerif.PropsGen.C12'],
         'C13': ['MalVerif.Py.TieNode', 'MalVerif.Py.TieGraph', 'MalVerif.PropsGen.C13'],
     },
     # python functions whose translation a property's theorems are about (for the evidence file)
     'sources': {
-        'C01': 'attackgraph.py: _process_step_expression (the methods it calls on lang_graph / model are parameters: EvalEnv) and the linking loop (second loop) of _generate_graph',
+        'C01': 'attackgraph.py: _process_step_expression (the methods it calls on lang_graph / model are parameters: EvalEnv), the linking loop (second loop) of _generate_graph, the node-creation loop (first loop) and the whole of _generate_graph (with add_node, get_node_by_full_name, node.full_name)',
+        'C02': 'attackgraph.py: the node-creation loop (first loop) of _generate_graph with add_node, get_node_by_id, get_node_by_full_name, _process_step_expression; node.py: full_name (model.assets, lang_graph._get_attacks_for_asset_type and getattr(asset, defense) are parameters: EvalEnv)',
         'C08': 'analyzers/apriori.py: propagate_viability_from_node, propagate_necessity_from_node, _has_ttc_distribution, evaluate_viability, evaluate_necessity, evaluate_viability_and_necessity, calculate_viability_and_necessity',
-        'C09': 'attackgraph.py: get_node_by_id, get_node_by_full_name, get_attacker_by_id, add_node, remove_node, add_attacker, remove_attacker; attacker.py: compromise, undo_compromise; node.py: full_name',
-        'C11': 'attacker.py: compromise, undo_compromise; node.py: is_compromised, is_compromised_by, compromise, undo_compromise',
+        'C09': 'attackgraph.py: get_node_by_id, get_node_by_full_name, get_attacker_by_id, add_node, remove_node, add_attacker, remove_attacker, regenerate_graph, __init__, _generate_graph; attacker.py: compromise, undo_compromise; node.py: full_name',
+        'C11': 'attacker.py: compromise, undo_compromise; node.py: is_compromised, is_compromised_by, compromise, undo_compromise; attackgraph.py: attach_attackers (with add_attacker, get_node_by_full_name; model.attackers and their entry points are parameters: EvalEnv)',
         'C12': 'query.py: is_node_traversable_by_attacker, get_attack_surface, update_attack_surface_add_nodes, get_defense_surface, get_enabled_defenses; node.py: is_available_defense, is_enabled_defense, is_compromised_by',
         'C13': 'analyzers/apriori.py: prune_unviable_and_unnecessary_nodes; attackgraph.py: remove_node; attacker.py: undo_compromise',
     },
@@ -98,7 +123,16 @@ ENV_METHODS = {
     'get_associated_assets_by_field_name': (['asset_obj', 'str'], ('list', 'asset_obj'), False),
     '_get_variable_for_asset_type_by_name': (['str', 'str'], 'expr', True),
     'get_asset_by_name': (['str'], ('opt', 'lgasset'), False),
+    '_get_attacks_for_asset_type': (['str'], ('dict', 'str', 'attribs'), False),
 }
+# keys of a resolved attack-step dictionary (`PyAttribs`): key -> (field, type)
+ATTRIB_KEYS = {'type': ('type', 'str'), 'ttc': ('ttc', ('opt', 'dictS')), 'tags': ('tags', ('list', 'str')),
+               'meta': ('meta_', 'dictS1'), 'requires': ('requires', ('opt', 'requires')),
+               'reaches': ('reaches', ('opt', 'reaches'))}
+# attributes of model objects that are only ever written by the translated code: the assignment is dropped
+WRITE_ONLY = {('asset_obj', 'attack_step_nodes')}
+ENV_TYPES = ('env', 'model_env')     # `self.lang_graph` / `self.model`: both are the parameter `env`
+ENV_PRESENT = {'env': 'env.has_lang_graph', 'model_env': 'env.has_model'}
 EXPR_KEYS = {'type': 'str', 'name': 'str', 'subType': 'str', 'lhs': 'expr', 'rhs': 'expr', 'stepExpression': 'expr'}
 
 CLASS_TYPE = {'AttackGraphNode': 'node', 'Attacker': 'att', 'AttackGraph': 'graph'}
@@ -115,7 +149,9 @@ ATTRS = {
     'graph': {'nodes': ('list', 'node'), 'attackers': ('list', 'att'),
               '_id_to_node': ('dict', 'int', 'node'), '_full_name_to_node': ('dict', 'str', 'node'),
               '_id_to_attacker': ('dict', 'int', 'att'), 'next_node_id': 'int', 'next_attacker_id': 'int',
-              'lang_graph': 'env', 'model': 'env'},
+              'lang_graph': 'env', 'model': 'model_env'},
+    'model_env': {'attackers': ('list', 'attinfo'), 'assets': ('list', 'asset_obj')},
+    'attinfo': {'name': ('opt', 'str'), 'entry_points': ('list', ('tuple', 'asset_obj', ('list', 'str')))},
     'asset': {'name': 'str'},
     'asset_obj': {'id': 'int', 'type': 'str', 'name': 'str'},
 }
@@ -146,6 +182,9 @@ def lean_type(t):
     if t == 'env': return 'EvalEnv'
     if t == 'attribs': return 'PyAttribs'
     if t == 'reaches': return 'PyReaches'
+    if t == 'requires': return 'PyReaches'
+    if t == 'dictS1': return 'PyDictS'
+    if t == 'attinfo': return 'PyAttackerInfo'
     if isinstance(t, tuple) and t[0] == 'tuple': return '(' + ' × '.join(lean_type(x) for x in t[1:]) + ')'
     if isinstance(t, tuple) and t[0] == 'opt': return f'(Option {lean_type(t[1])})'
     if isinstance(t, tuple) and t[0] == 'list': return f'(List {lean_type(t[1])})'
@@ -160,7 +199,8 @@ def ann_type(a: ast.expr | None):
              'str': 'str', 'None': 'none', 'list[AttackGraphNode]': ('list', 'node'), 'list[int]': ('list', 'int'),
              'Optional[int]': ('opt', 'int'), 'Optional[AttackGraphNode]': ('opt', 'node'),
              'Optional[Attacker]': ('opt', 'att'), 'list[Attacker]': ('list', 'att'),
-             'LanguageGraph': 'env', 'Model': 'env', 'list[Any]': ('list', 'asset_obj'), 'dict[str,Any]': 'expr',
+             'LanguageGraph': 'env', 'Model': 'env', 'Optional[Model]': 'model_env',
+             'list[Any]': ('list', 'asset_obj'), 'dict[str,Any]': 'expr',
              'tuple[list,Optional[str]]': ('tuple', ('list', 'asset_obj'), ('opt', 'str'))}
     if src in table: return table[src]
     raise Unsupported(f'annotation {src}')
@@ -189,10 +229,15 @@ class Fn:
         for i, a in enumerate(args):
             if i == 0 and cls:
                 self.params.append((a.arg, self.selftype))
+            elif a.annotation is None and a.arg == 'lang_graph':
+                self.params.append((a.arg, 'env'))          # `AttackGraph.__init__(self, lang_graph = None, ..)`
             else:
                 self.params.append((a.arg, ann_type(a.annotation)))
+        # default values of the trailing parameters (python name -> ast)
+        nd = len(node.args.defaults)
+        self.defaults = {a.arg: d for a, d in zip(args[len(args) - nd:], node.args.defaults)} if nd else {}
         self.ret = ann_type(node.returns) if node.returns is not None else 'none'
-        self.takes_env = any(t == 'env' for _, t in self.params)
+        self.takes_env = any(t in ENV_TYPES for _, t in self.params)
         self.takes_s = cls is not None or any(t in ('node', 'att', 'graph') for _, t in self.params)
         self.calls: set[str] = set()
         self.mutates = False
@@ -264,6 +309,25 @@ class Effects(ast.NodeVisitor):
         self.fn.raises = True          # the bounded unrolling raises PyErr.nonTermination when exhausted
         self.generic_visit(n)
     def visit_Assert(self, n): self.fn.raises = True
+    def visit_Attribute(self, n):
+        # `self.model` / `self.lang_graph`: the function needs the environment parameter
+        if isinstance(n.value, ast.Name) and self.env.get(n.value.id) == 'graph' and \
+                ATTRS['graph'].get(n.attr) in ENV_TYPES:
+            self.fn.takes_env = True
+        self.generic_visit(n)
+    def visit_Subscript(self, n):
+        # `l[0]` (IndexError) / `step['requires']['stepExpressions']` (TypeError on None)
+        if isinstance(n.ctx, ast.Load) and isinstance(n.slice, ast.Constant) and \
+                (isinstance(n.slice.value, int) or
+                 (n.slice.value == 'stepExpressions' and isinstance(n.value, ast.Subscript) and
+                  isinstance(n.value.slice, ast.Constant) and n.value.slice.value == 'requires')):
+            self.fn.raises = True
+        self.generic_visit(n)
+    def visit_AnnAssign(self, n):
+        if isinstance(n.target, (ast.Attribute, ast.Subscript)):
+            self.fn.mutates = True
+            if isinstance(n.target, ast.Attribute): self.fn.mut_attrs.add(n.target.attr)
+        self.generic_visit(n)
     def visit_Delete(self, n): self.fn.raises = True; self.fn.mutates = True
     def visit_Assign(self, n):
         for t in n.targets:
@@ -290,6 +354,9 @@ class Effects(ast.NodeVisitor):
             for f in self.by_name.get(m, []):
                 if f.cls is not None and (rt is None or rt == f.selftype): self.fn.calls.add(f.lean)
         elif isinstance(n.func, ast.Name):
+            if CLASS_TYPE.get(n.func.id) in STORE:
+                self.fn.mutates = True          # constructor call: allocation
+            if n.func.id == 'getattr': self.fn.takes_env = True
             for f in self.by_name.get(n.func.id, []):
                 if f.cls is None: self.fn.calls.add(f.lean)
         self.generic_visit(n)
@@ -356,6 +423,8 @@ class Tr:
         if isinstance(t, tuple) and t[0] == 'opt' and t[1] == 'dictS': return f'(dictTruthy {lean})'
         if t == ('opt', 'bool'): return f'(truthyOptBool {lean})'
         if t == ('opt', 'int'): return f'(truthyOptInt {lean})'
+        if t == ('opt', 'str'): return f'(truthyOptStr {lean})'
+        if t in ENV_TYPES: return ENV_PRESENT[t]       # `self.model` / `self.lang_graph` is None or an object
         if isinstance(t, tuple) and t[0] == 'opt' and t[1] in ('node', 'att', 'asset', 'asset_obj', 'lgasset', 'reaches', 'attribs'): return f'({lean}).isSome'
         if isinstance(t, tuple) and t[0] == 'list': return f'!({lean}).isEmpty'
         if t in ('node', 'att', 'asset', 'asset_obj', 'lgasset'): return 'true'
@@ -384,7 +453,7 @@ class Tr:
         if isinstance(e, ast.Attribute):
             base, bt = self.expr(e.value)
             if bt == 'graph':
-                if ATTRS['graph'].get(e.attr) == 'env': return 'env', 'env'
+                if ATTRS['graph'].get(e.attr) in ENV_TYPES: return 'env', ATTRS['graph'][e.attr]
                 if e.attr in ATTRS['graph']: return f's.{e.attr}', ATTRS['graph'][e.attr]
                 raise Unsupported(f'graph attribute {e.attr}')
             if bt in ('node', 'att'):
@@ -392,7 +461,7 @@ class Tr:
                     return f'({PREFIX[bt]}{e.attr} s {base})', 'str'
                 if e.attr in ATTRS[bt]: return f'(s.{STORE[bt]} {base}).{e.attr}', ATTRS[bt][e.attr]
                 raise Unsupported(f'{bt} attribute {e.attr}')
-            if bt in ('asset', 'asset_obj'):
+            if bt in ('asset', 'asset_obj', 'attinfo', 'model_env'):
                 if e.attr in ATTRS[bt]: return f'{base}.{e.attr}', ATTRS[bt][e.attr]
             raise Unsupported(f'attribute {e.attr} of {bt}')
         if isinstance(e, ast.UnaryOp) and isinstance(e.op, ast.Not):
@@ -423,6 +492,17 @@ class Tr:
                 return f'(reachesExprs {base})', ('list', 'expr')
             if bt == 'expr' and isinstance(e.slice, ast.Constant) and e.slice.value in EXPR_KEYS:
                 return f'{base}.{e.slice.value}', EXPR_KEYS[e.slice.value]
+            if bt == 'attribs' and isinstance(e.slice, ast.Constant) and e.slice.value in ATTRIB_KEYS:
+                fld, ft = ATTRIB_KEYS[e.slice.value]
+                return f'{base}.{fld}', ft
+            if bt == 'dictS1' and kt == 'str': return f'(dictGetS (some {base}) {k})', 'str'
+            if bt == ('opt', 'requires') and isinstance(e.slice, ast.Constant) and e.slice.value == 'stepExpressions':
+                if not self.monadic: raise Unsupported('raising subscript in pure function')
+                return f'(← requiresExprs {base})', ('list', 'expr')
+            if isinstance(bt, tuple) and bt[0] == 'list' and isinstance(e.slice, ast.Constant) and \
+                    isinstance(e.slice.value, int) and not isinstance(e.slice.value, bool) and e.slice.value >= 0:
+                if not self.monadic: raise Unsupported('raising subscript in pure function')
+                return f'(← pyIndex {base} {e.slice.value})', bt[1]
             raise Unsupported(f'subscript on {bt}')
         if isinstance(e, ast.Tuple):
             parts = [self.expr(v) for v in e.elts]
@@ -437,6 +517,8 @@ class Tr:
             ts = {t for _, t in parts}
             if len(ts) != 1: raise Unsupported('heterogeneous list literal')
             return '[' + ', '.join(x for x, _ in parts) + ']', ('list', ts.pop())
+        if isinstance(e, ast.Dict) and not e.keys:
+            return '[]', ('dict', '?', '?')
         if isinstance(e, ast.ListComp):
             if len(e.generators) != 1 or e.generators[0].is_async: raise Unsupported('list comprehension shape')
             g = e.generators[0]
@@ -473,6 +555,8 @@ class Tr:
         # comparisons with None
         if isinstance(rhs, ast.Constant) and rhs.value is None and isinstance(op, (ast.Is, ast.IsNot, ast.Eq, ast.NotEq)):
             x, t = self.expr(e.left)
+            if t in ENV_TYPES:
+                return (f'!({ENV_PRESENT[t]})' if isinstance(op, (ast.Is, ast.Eq)) else ENV_PRESENT[t]), 'bool'
             if not (isinstance(t, tuple) and t[0] == 'opt'):
                 return ('false' if isinstance(op, (ast.Is, ast.Eq)) else 'true'), 'bool'
             return (f'({x}).isNone' if isinstance(op, (ast.Is, ast.Eq)) else f'({x}).isSome'), 'bool'
@@ -487,6 +571,10 @@ class Tr:
             return (r if isinstance(op, ast.Eq) else f'!{r}'), 'bool'
         l, lt = self.expr(e.left)
         r, rt = self.expr(rhs)
+        # `l == []` / `l != []` on a list
+        if isinstance(op, (ast.Eq, ast.NotEq)) and isinstance(rhs, ast.List) and not rhs.elts and \
+                isinstance(lt, tuple) and lt[0] == 'list':
+            return (f'({l}).isEmpty' if isinstance(op, ast.Eq) else f'!({l}).isEmpty'), 'bool'
         if isinstance(op, (ast.In, ast.NotIn)):
             if isinstance(rt, tuple) and rt[0] == 'list':
                 if rt[1] not in (lt, '?'): raise Unsupported(f'membership {lt} in {rt}')
@@ -495,6 +583,8 @@ class Tr:
                 res = f'dictIn {r} {self.as_int(l, lt) if rt[1] == "int" else l}'
             elif rt == ('opt', 'dictS') and lt == 'str':
                 res = f'dictHas {r} {l}'
+            elif rt == 'dictS1' and lt == 'str':
+                res = f'dictHas (some {r}) {l}'
             else: raise Unsupported(f'membership in {rt}')
             return (f'({res})' if isinstance(op, ast.In) else f'!({res})'), 'bool'
         if isinstance(op, (ast.Eq, ast.NotEq)):
@@ -520,6 +610,8 @@ class Tr:
         c, ct = self.expr(t)
         a, at = self.expr(e.body); b, bt = self.expr(e.orelse)
         if bt == ('list', '?') and isinstance(at, tuple) and at[0] == 'list': bt = at
+        if bt == ('opt', '?') and not (isinstance(at, tuple) and at[0] == 'opt'):      # `x if c else None`
+            return f'(if {self.truthy(c, ct)} then (some {a}) else none)', ('opt', at)
         if at != bt: raise Unsupported('conditional expression types')
         return f'(if {self.truthy(c, ct)} then {a} else {b})', at
 
@@ -530,13 +622,21 @@ class Tr:
         if f.cls:
             if f.selftype != 'graph': out.append(recv)
             params = params[1:]
-        if len(args) != len(params): raise Unsupported(f'call of {f.lean}: all {len(params)} arguments must be given')
+        args = list(args)
+        if len(args) > len(params): raise Unsupported(f'call of {f.lean}: too many arguments')
+        for pn, _ in params[len(args):]:        # trailing parameters that are not given: their default values
+            if pn not in f.defaults: raise Unsupported(f'call of {f.lean}: argument {pn} must be given')
+            d = f.defaults[pn]
+            if not ((isinstance(d, ast.Constant) and d.value is None) or (isinstance(d, ast.List) and not d.elts)):
+                raise Unsupported(f'call of {f.lean}: default value of {pn}')
+            args.append(d)
         for (pn, pt), a in zip(params, args):
-            if pt == 'env': continue
+            if pt in ENV_TYPES: continue
             x, t = self.expr(a)
             if pt == 'graph': continue
             if t != pt:
                 if isinstance(pt, tuple) and pt[0] == 'opt' and pt[1] == t: x = f'(some {x})'
+                elif t == ('opt', '?') and isinstance(pt, tuple) and pt[0] == 'opt': pass
                 elif isinstance(t, tuple) and t[0] == 'list' and t[1] == '?' and isinstance(pt, tuple) and pt[0] == 'list': pass
                 else: raise Unsupported(f'call of {f.lean}: argument {pn} has type {t}, expected {pt}')
             out.append(x)
@@ -583,6 +683,8 @@ class Tr:
             m = e.func.attr
             try: recv, rt = self.expr(e.func.value)
             except Unsupported: recv, rt = None, None
+            if m == 'items' and not e.args and isinstance(rt, tuple) and rt[0] == 'dict':
+                return recv, ('list', ('tuple', rt[1], rt[2]))          # insertion order
             if rt == 'env' and m in ENV_METHODS:
                 ats, ret, raises = ENV_METHODS[m]
                 if len(e.args) != len(ats): raise Unsupported(f'arity of {m}')
@@ -606,6 +708,11 @@ class Tr:
                 x, t = self.expr(e.args[0])
                 if t in ATTRS and e.args[1].value in ATTRS[t]: return 'true', 'bool'
                 raise Unsupported(f'hasattr on {t}')
+            if n == 'getattr' and len(e.args) == 2:
+                # `getattr(asset, defense_name)`: the asset's current value of that defense (a parameter)
+                x, t = self.expr(e.args[0]); k, kt = self.expr(e.args[1])
+                if t == 'asset_obj' and kt == 'str': return f'(env.getattr_asset {x} {k})', ('opt', 'float')
+                raise Unsupported(f'getattr on {t}')
             if n == 'next' and len(e.args) == 2 and isinstance(e.args[0], ast.GeneratorExp) and \
                     isinstance(e.args[1], ast.Constant) and e.args[1].value is None:
                 # next((v for v in L if cond), None): the first element satisfying cond, or None
@@ -672,6 +779,7 @@ class Tr:
             if t == want[1]: return f'(some {x})'
             if t == ('opt', '?'): return 'none'
         if isinstance(want, tuple) and want[0] == 'list' and t == ('list', '?'): return x
+        if isinstance(want, tuple) and want[0] == 'dict' and t == ('dict', '?', '?'): return x
         if want == 'bool' and t == ('opt', 'bool'): return f'(optBoolGet {x})'
         if isinstance(want, tuple) and want[0] == 'tuple' and isinstance(t, tuple) and t[0] == 'tuple' and len(t) == len(want) \
                 and x in self.tuple_parts:
@@ -681,6 +789,17 @@ class Tr:
     # ---- statements
     def body(self, ind, stmts):
         n0 = len(self.lines)
+        narrow0 = dict(self.narrow)
+        try:
+            self._body(ind, stmts)
+        finally:
+            # what a guard (`if not x: raise / continue`) established holds until the end of its block only
+            for k in list(self.narrow):
+                if k not in narrow0: del self.narrow[k]
+        if len(self.lines) == n0:
+            self.emit(ind, 'pure ()')
+
+    def _body(self, ind, stmts):
         for i, st in enumerate(stmts):
             for v in self.hoist.get((id(stmts), i), []):
                 t = self.var_types.get(v)
@@ -688,8 +807,24 @@ class Tr:
                 self.locals[v] = t; self.declared.add(v)
                 self.emit(ind, f'let mut {esc(v)} : {lean_type(t)} := {self.default_of(t)}')
             self.stmt(ind, st)
-        if len(self.lines) == n0:
-            self.emit(ind, 'pure ()')
+
+    def ctor(self, ind, v: ast.Call):
+        """`AttackGraphNode(k = v, ..)` / `Attacker(k = v, ..)`: allocation of a fresh object with these fields"""
+        cls = CLASS_TYPE[v.func.id]
+        if v.args: raise Unsupported('positional constructor arguments')
+        given, fields = set(), []
+        for kw in v.keywords:
+            if kw.arg is None or kw.arg not in ATTRS[cls] or kw.arg in given: raise Unsupported(f'constructor argument {kw.arg}')
+            given.add(kw.arg)
+            x, t = self.expr(kw.value)
+            fields.append(f'{kw.arg} := {self.coerce(x, t, ATTRS[cls][kw.arg])}')
+        for req in ({'node': ('type', 'name'), 'att': ('name',)}[cls]):
+            if req not in given: raise Unsupported(f'constructor without {req}')
+        tmp = self.fresh('r')
+        self.emit(ind, f's.alloc{"N" if cls == "node" else "A"} {{ ' + ', '.join(fields) + ' }')
+        self.lines[-1] = '  ' * ind + f'let {tmp} := ' + self.lines[-1].lstrip()
+        self.emit(ind, f's := {tmp}.1')
+        return f'{tmp}.2', cls
 
     def ret_unit(self):
         return 'return s' if self.fn.mutates else 'return ()'
@@ -740,9 +875,25 @@ class Tr:
                     return
             raise Unsupported(f'statement {ast.unparse(st)}')
         if isinstance(st, ast.Pass): return
+        if isinstance(st, ast.Continue):
+            self.emit(ind, 'continue'); return
+        if isinstance(st, ast.AnnAssign) and st.value is not None and st.simple == 0:
+            # `self.x: T = v`: the annotation of an attribute is not evaluated
+            st = ast.copy_location(ast.Assign(targets=[st.target], value=st.value), st)
         if isinstance(st, ast.Assign):
             if len(st.targets) != 1: raise Unsupported('multiple assignment')
             tgt = st.targets[0]
+            if isinstance(tgt, ast.Attribute):
+                _, bt0 = self.expr(tgt.value)
+                if (bt0, tgt.attr) in WRITE_ONLY:
+                    self.expr(st.value)            # must be an expression of the supported subset
+                    return
+                if bt0 == 'graph' and ATTRS['graph'].get(tgt.attr) in ENV_TYPES:
+                    # `self.model = model` / `self.lang_graph = lang_graph`: the parameter is the environment
+                    if isinstance(st.value, ast.Name) and self.locals.get(st.value.id) == ATTRS['graph'][tgt.attr] \
+                            and st.value.id in {pn for pn, _ in self.fn.params}:
+                        return
+                    raise Unsupported(f'assignment to self.{tgt.attr}')
             if isinstance(tgt, ast.Tuple) and all(isinstance(x, ast.Name) for x in tgt.elts):
                 x, t = self.expr(st.value)
                 if not (isinstance(t, tuple) and t[0] == 'tuple' and len(t) - 1 == len(tgt.elts)): raise Unsupported('tuple unpacking')
@@ -762,13 +913,23 @@ class Tr:
                 return
             if isinstance(tgt, ast.Name) and tgt.id in self.skip_locals:
                 if not isinstance(st.value, (ast.Constant, ast.JoinedStr)) and not \
-                        (isinstance(st.value, ast.BinOp) and all(isinstance(n, (ast.Constant, ast.BinOp, ast.operator, ast.expr_context)) for n in ast.walk(st.value))):
+                        (isinstance(st.value, ast.BinOp) and all(isinstance(n, (ast.Constant, ast.BinOp, ast.operator, ast.expr_context, ast.Name, ast.Attribute)) for n in ast.walk(st.value))):
                     raise Unsupported(f'unused local {tgt.id} with a non-constant value')
                 return
-            x, t = self.expr(st.value)
+            if isinstance(st.value, ast.Call) and isinstance(st.value.func, ast.Name) and \
+                    CLASS_TYPE.get(st.value.func.id) in STORE:
+                if not (isinstance(tgt, ast.Name) and self.fn.mutates): raise Unsupported('constructor call target')
+                x, t = self.ctor(ind, st.value)
+            else:
+                x, t = self.expr(st.value)
             if isinstance(tgt, ast.Name):
                 self.narrow.pop(ast.dump(ast.Name(id=tgt.id, ctx=ast.Load())), None)
                 self.first_types.setdefault(tgt.id, t)
+                if tgt.id in self.locals and tgt.id in self.declared and self.locals[tgt.id] == ('opt', '?') and \
+                        t != ('opt', '?'):
+                    # `x = None` earlier: the type of the local is Optional[type of this value]
+                    nt = t if (isinstance(t, tuple) and t[0] == 'opt') else ('opt', t)
+                    self.locals[tgt.id] = nt; self.first_types[tgt.id] = nt
                 if tgt.id in self.locals and tgt.id in self.declared:
                     self.emit(ind, f'{esc(tgt.id)} := {self.coerce(x, t, self.locals[tgt.id]) if self.locals[tgt.id] != ("list", "?") else x}')
                     if self.locals[tgt.id] == ('list', '?'): self.locals[tgt.id] = t
@@ -835,17 +996,37 @@ class Tr:
                      and not (isinstance(b, ast.Assign) and len(b.targets) == 1 and isinstance(b.targets[0], ast.Name)
                               and b.targets[0].id in self.skip_locals)]
             if isinstance(t0, ast.UnaryOp) and isinstance(t0.op, ast.Not) and isinstance(t0.operand, ast.Name) and not st.orelse \
-                    and len(body0) == 1 and isinstance(body0[0], ast.Raise) and self.monadic:
+                    and len(body0) == 1 and isinstance(body0[0], (ast.Raise, ast.Continue)) and self.monadic:
                 x, xt = self.expr(t0.operand)
                 if isinstance(xt, tuple) and xt[0] == 'opt' and xt[1] in ('lgasset', 'node', 'att', 'asset_obj'):
-                    name = None
-                    exc = body0[0].exc
-                    if isinstance(exc, ast.Call) and isinstance(exc.func, ast.Name): name = exc.func.id
+                    if isinstance(body0[0], ast.Continue):
+                        leave = 'continue'
+                    else:
+                        name = None
+                        exc = body0[0].exc
+                        if isinstance(exc, ast.Call) and isinstance(exc.func, ast.Name): name = exc.func.id
+                        leave = f'throw {EXC.get(name, "PyErr.other")}'
                     v = self.fresh(t0.operand.id)
                     self.emit(ind, f'let {v} ← match {x} with')
                     self.emit(ind + 1, '| some v => pure v')
-                    self.emit(ind + 1, f'| none => throw {EXC.get(name, "PyErr.other")}')
+                    self.emit(ind + 1, f'| none => {leave}')
                     self.narrow[ast.dump(t0.operand)] = (v, xt[1])
+                    return
+            # `if not x: raise E` on an Optional[str] (local or attribute of a parameter object): afterwards x is
+            # a non-empty string
+            if isinstance(t0, ast.UnaryOp) and isinstance(t0.op, ast.Not) and isinstance(t0.operand, (ast.Name, ast.Attribute)) \
+                    and not st.orelse and len(body0) == 1 and isinstance(body0[0], ast.Raise) and self.monadic \
+                    and ast.dump(t0.operand) not in self.narrow:
+                x, xt = self.expr(t0.operand)
+                pure_operand = isinstance(t0.operand, ast.Name) or \
+                    (isinstance(t0.operand.value, ast.Name) and self.locals.get(t0.operand.value.id) in ('attinfo', 'asset_obj'))
+                if xt == ('opt', 'str') and pure_operand:
+                    name = None
+                    exc = body0[0].exc
+                    if isinstance(exc, ast.Call) and isinstance(exc.func, ast.Name): name = exc.func.id
+                    self.emit(ind, f'if !({self.truthy(x, xt)}) then')
+                    self.emit(ind + 1, f'throw {EXC.get(name, "PyErr.other")}')
+                    self.narrow[ast.dump(t0.operand)] = (f'(optStrVal {x})', 'str')
                     return
             # narrowing on an Optional value
             t = st.test
@@ -872,12 +1053,16 @@ class Tr:
                 self.body(ind + 1, st.orelse)
             return
         if isinstance(st, ast.For):
-            if st.orelse or not isinstance(st.target, ast.Name): raise Unsupported('for shape')
+            names = [st.target] if isinstance(st.target, ast.Name) else \
+                (list(st.target.elts) if isinstance(st.target, ast.Tuple) else [])
+            if st.orelse or not names or not all(isinstance(x, ast.Name) for x in names): raise Unsupported('for shape')
             it, itt = self.expr(st.iter)
             if not (isinstance(itt, tuple) and itt[0] == 'list'): raise Unsupported(f'iteration over {itt}')
-            # a live heap list may only be iterated if the body cannot mutate that attribute
+            # a live heap list may only be iterated if the body cannot mutate that attribute (lists of the
+            # environment -- model.assets, model.attackers, entry points -- are values: the translated code has
+            # no way of writing them, an attempt is Unsupported)
             src = st.iter
-            if isinstance(src, ast.Attribute):
+            if isinstance(src, ast.Attribute) and self.expr(src.value)[1] in ('graph', 'node', 'att'):
                 probe = Fn.__new__(Fn); probe.calls = set(); probe.mutates = probe.raises = False; probe.mut_attrs = set()
                 by_name: dict[str, list[Fn]] = {}
                 for f in self.fns.values(): by_name.setdefault(f.pyname, []).append(f)
@@ -887,13 +1072,21 @@ class Tr:
                 for c in probe.calls: muts |= self.fns[c].mut_attrs
                 if src.attr in muts:
                     raise Unsupported(f'loop over live list .{src.attr} whose body may mutate .{src.attr}')
-            v = st.target.id
-            saved = self.locals.get(v)
-            self.locals[v] = itt[1]
-            self.emit(ind, f'for {esc(v)} in {it} do')
+            if isinstance(st.target, ast.Tuple):
+                if not (isinstance(itt[1], tuple) and itt[1][0] == 'tuple' and len(itt[1]) - 1 == len(names)):
+                    raise Unsupported('tuple unpacking in for')
+                vts = list(zip([x.id for x in names], itt[1][1:]))
+                pat = '(' + ', '.join(esc(v) for v, _ in vts) + ')'
+            else:
+                vts = [(st.target.id, itt[1])]
+                pat = esc(st.target.id)
+            saved = {v: self.locals.get(v) for v, _ in vts}
+            for v, vt in vts: self.locals[v] = vt
+            self.emit(ind, f'for {pat} in {it} do')
             self.body(ind + 1, st.body)
-            if saved is None: del self.locals[v]
-            else: self.locals[v] = saved
+            for v, _ in vts:
+                if saved[v] is None: del self.locals[v]
+                else: self.locals[v] = saved[v]
             return
         if isinstance(st, ast.While):
             # idiom: while x in L: L.remove(x)
@@ -989,6 +1182,8 @@ class Tr:
                     walk_expr(st.test, p); walk_block(st.body, p); walk_block(st.orelse, p)
                 elif isinstance(st, ast.For):
                     walk_expr(st.iter, p); loopvars.add(st.target.id if isinstance(st.target, ast.Name) else '')
+                    if isinstance(st.target, ast.Tuple):
+                        loopvars.update(x.id for x in st.target.elts if isinstance(x, ast.Name))
                     walk_block(st.body, p)
                 elif isinstance(st, ast.While):
                     walk_expr(st.test, p); walk_block(st.body, p)
@@ -1055,7 +1250,7 @@ class Tr:
         params = []
         for i, (pn, pt) in enumerate(fn.params):
             self.locals[pn] = pt
-            if pt in ('graph', 'env'): continue
+            if pt == 'graph' or pt in ENV_TYPES: continue
             params.append(f'({esc(pn)} : {lean_type(pt)})')
         if fn.mutates:
             if fn.ret != 'none': raise Unsupported(f'{fn.lean}: mutating function returning a value')
